@@ -51,6 +51,8 @@ var freshNew = &sexpr{"clone", &sexpr{op: "param"}} // a value made from nothing
 // fields of a DiffElement / patch element that hold slices owned by whoever owns the element
 var ownedFields = map[string]bool{"Path": true, "Add": true, "Remove": true, "Before": true, "After": true, "OldValues": true, "NewValues": true}
 
+var containerTypes = map[string]bool{"jsonArray": true, "jsonList": true, "jsonSet": true, "jsonMultiset": true, "jsonObject": true}
+
 type unknown struct{ msg string }
 
 func fail(format string, a ...interface{}) { panic(unknown{fmt.Sprintf(format, a...)}) }
@@ -72,6 +74,7 @@ type funcCtx struct {
 	fieldsN  map[string]int
 	busy     map[string]bool
 	ptrs     map[string]bool // locals defined as &x: assignments to their fields write into the caller's data
+	deep     bool            // a handover into a document that is patched in place: only a DEEP copy counts (slices.Clone is shallow)
 }
 
 func isPathType(t ast.Expr, ty string) bool {
@@ -138,6 +141,11 @@ func (c *funcCtx) conv(e ast.Expr, depth int) *sexpr {
 				return freshNew
 			case f.Name == c.pkg.pathTy: // conversion Path(x) of something that is not a path yet
 				return &sexpr{op: "param"}
+			case containerTypes[f.Name] && len(x.Args) == 1: // conversion jsonArray(x): the same backing array
+				return c.conv(x.Args[0], depth+1)
+			case strings.HasPrefix(f.Name, "clone") && len(x.Args) == 1:
+				// cloneNodes / cloneNode: their bodies are checked site by site (kind store: every container they return is fresh)
+				return &sexpr{"clone", c.conv(x.Args[0], depth+1)}
 			default:
 				if body, ok := c.closures[f.Name]; ok && len(x.Args) == 0 {
 					return c.conv(body, depth+1)
@@ -153,6 +161,9 @@ func (c *funcCtx) conv(e ast.Expr, depth int) *sexpr {
 		case *ast.SelectorExpr:
 			name := f.Sel.Name
 			if pk, ok := f.X.(*ast.Ident); ok && pk.Name == "slices" && name == "Clone" && len(x.Args) == 1 {
+				if c.deep {
+					return c.conv(x.Args[0], depth+1) // a copy of the slice, not of the nodes in it
+				}
 				return &sexpr{"clone", c.conv(x.Args[0], depth+1)}
 			}
 			switch name {
@@ -501,8 +512,55 @@ func main() {
 						sites = append(sites, site{label, kind, c.conv(e, 0)})
 					}()
 				}
+				isCloneFn := strings.HasPrefix(fd.Name.Name, "clone") && fd.Recv == nil
+				if isCloneFn {
+					// the single parameter is what the caller owns
+					for _, p := range fd.Type.Params.List {
+						for _, n := range p.Names {
+							c.params[n.Name] = true
+						}
+					}
+				}
 				var stack []ast.Node
 				ast.Inspect(fd.Body, func(n ast.Node) bool {
+					if isCloneFn && n != nil {
+						switch y := n.(type) {
+						case *ast.TypeSwitchStmt:
+							if as, ok := y.Assign.(*ast.AssignStmt); ok && len(as.Lhs) == 1 {
+								if id, ok := as.Lhs[0].(*ast.Ident); ok {
+									c.params[id.Name] = true // t := n.(type): the same node
+								}
+							}
+						case *ast.ReturnStmt:
+							// which case clause are we in?
+							container := false
+							inSwitch := false
+							for i := len(stack) - 1; i >= 0; i-- {
+								if cc, ok := stack[i].(*ast.CaseClause); ok {
+									inSwitch = true
+									for _, t := range cc.List {
+										if id, ok := t.(*ast.Ident); ok && containerTypes[id.Name] {
+											container = true
+										}
+									}
+									break
+								}
+							}
+							if len(y.Results) == 1 {
+								if id, ok := y.Results[0].(*ast.Ident); ok && id.Name == "nil" {
+									break
+								}
+								if container || !inSwitch && fd.Name.Name != "cloneNode" {
+									// a container (or the slice of cloneNodes) handed back to patchAll: must be a copy
+									if !(inSwitch == false && c.pathish(y.Results[0]) == false) {
+										add("store", y.Results[0])
+									} else {
+										add("store", y.Results[0])
+									}
+								}
+							}
+						}
+					}
 					if n == nil {
 						stack = stack[:len(stack)-1]
 						return true
@@ -554,6 +612,36 @@ func main() {
 							name = f.Name
 						case *ast.SelectorExpr:
 							name = f.Sel.Name
+						}
+						if fd.Name.Name != "patch" && name == "patch" {
+							// the added values become part of the patched document, which is patched in place later
+							for _, a := range x.Args {
+								hands := false
+								ast.Inspect(a, func(nd ast.Node) bool {
+									if se, ok := nd.(*ast.SelectorExpr); ok && (se.Sel.Name == "Add" || se.Sel.Name == "NewValues") {
+										hands = true
+									}
+									if id, ok := nd.(*ast.Ident); ok {
+										if d, ok := c.defs[id.Name]; ok {
+											ast.Inspect(d, func(n2 ast.Node) bool {
+												if se, ok := n2.(*ast.SelectorExpr); ok && (se.Sel.Name == "Add" || se.Sel.Name == "NewValues") {
+													hands = true
+												}
+												return true
+											})
+										}
+										if c.multi[id.Name] && (strings.Contains(strings.ToLower(id.Name), "add") || strings.Contains(strings.ToLower(id.Name), "new")) {
+											hands = true
+										}
+									}
+									return true
+								})
+								if hands {
+									c.deep = true
+									add("write", a)
+									c.deep = false
+								}
+							}
 						}
 						if sel, ok := x.Fun.(*ast.SelectorExpr); ok {
 							if pk, ok := sel.X.(*ast.Ident); ok && (pk.Name == "slices" || pk.Name == "sort") && name != "Clone" && len(x.Args) >= 1 && c.pathish(x.Args[0]) {
